@@ -14,7 +14,7 @@ Extraction "model.ml"
   decode_any encode_any decode_idset_v1 encode_idset_v1 decode_sv_v1 encode_sv_v1 decode_snapshot_v1 encode_snapshot_v1
   decode_update_v1 encode_update_v1 units_of_update
   apply_update set_local remove_state aget
-  local_op local_insert local_delete contents sticky_at sticky_offset quoted split_live live
+  local_op local_insert local_delete contents sticky_at sticky_offset quoted split_live split_gap live
   decode_sticky encode_sticky decode_awareness encode_awareness decode_message encode_message
   empty_replica replica_apply replica_state render restrict_pool integrated_ids pending_ds visible seq_len map_value
   change_set seq_exact swf seq_before seq_after keys_change key_exact kwf key_before key_after text_delta text_exact twf path_index
